@@ -66,7 +66,7 @@ META = {
                "a 2^30+4096 byte stack request crashes). Not decided: that the callback really runs on the next context's stack (asm, C03); "
                "that a running thread's env field names its current worker (scheduler invariant used by myth_entry_point_cleanup).",
  "trusted_base": ["cbmc 6.11.0 (goto-cc, goto-instrument --replace-calls / --dfcc loop contracts, SAT back end)",
-                  "gcc -E preprocessing of the real headers (rules R2, R4)",
+                  "gcc -E preprocessing of the real headers (rules R1, R2, R4)",
                   "paper step from the per-function ledger obligations to the global non-overlap / no-reuse statement"],
  "explanation": "Part 1 (c12_alloc.c): size-class arithmetic over all sizes in the stated domain; myth_freelist_push/pop against contracts with "
                 "exact frame (only list head and first word of the cell); myth_flmalloc/myth_flfree with list operations replaced by ledger stubs "
